@@ -113,8 +113,9 @@ func utf8Name(r *gen.Rand) string {
 		if r.Chance(1, 6) {
 			p = gen.Pick(r, utf8Pieces)
 		}
-		pos := r.Intn(len(s) + 1)
-		s = s[:pos] + p + s[pos:]
+		rs := []rune(s)
+		pos := r.Intn(len(rs) + 1)
+		s = string(rs[:pos]) + p + string(rs[pos:])
 	}
 	return s
 }
